@@ -37,12 +37,13 @@ CLAIMED["C17"] = dict(
          "algebra of get_PropagationMatrix (U_i = E^i U_0, U_0 = 1 | E^Ns | E_dt) is proved in any monoid. Tied to the code by "
          "bit-exact runs of set_rate histories, 1e-9 runs of propagate and of sub-axis propagation matrices. The distance of m "
          "elementary steps to exp(m dt K) p is within the truncation bound m e^{(m-1)x}(e^x - sum_{k<=L} x^k/k!)|p|, x = |dt K|, in "
-         "any complete normed algebra (populations_within_truncation_bound), and a first-order step keeps populations non-negative "
-         "for non-negative off-diagonal rates and dt|K_jj| <= 1 (euler_step_nonneg). Partial: non-negativity for higher expansion "
-         "orders is measured by the oracle, not proved.",
+         "any complete normed algebra (populations_within_truncation_bound). Non-negativity is proved for EVERY expansion order: with "
+         "non-negative off-diagonal rates, -K_jj <= s and dt*s <= 1 every stored population vector is non-negative "
+         "(populations_nonneg; the step polynomial is regrouped as sum_m e_{L-m}(-x)/m! A^m with A = dt K + x >= 0 entrywise and the "
+         "alternating partial sums e_j(-x) >= 0 on [0,1]); euler_step_nonneg is the first-order case with the sharper condition.",
     note="Lean kernel + standard axioms; extractor for the set_rate arithmetic; hand model of which cells set_rate writes and of the "
-         "propagation loop; scipy.linalg.expm / numpy.linalg.eig as externals; positivity beyond first order observed only.",
-    technique="Lean 4 theorems over extracted kernel + loop-invariant induction + model/implementation correspondence",
+         "propagation loop; scipy.linalg.expm / numpy.linalg.eig as externals.",
+    technique="Lean 4 theorems over extracted kernel + loop-invariant induction + binomial regrouping / alternating-series positivity proof + normed-algebra truncation bound + model/implementation correspondence",
     ref="DESIGN.md §5 C17")
 
 CLAIMED["C16"] = dict(
@@ -118,7 +119,9 @@ CLAIMED["C02"] = dict(
          "Hamiltonian, a conjugation-commuting tensor and a real time step; (iii) operator-form and tensor-form propagation store identical "
          "states; (iv) in any complete normed algebra, m elementary steps of the loop are within m e^{(m-1)x}(e^x - sum_{k<=L} x^k/k!) |y|, "
          "x = |dt*generator|, of exp(m dt generator) y, and one step of the code's loop IS the order-L Taylor polynomial (the 'truncation "
-         "bound' of the statement, Mathlib NormedSpace.exp). Tied to the code by 1e-9 comparison of every stored state of "
+         "bound' of the statement, Mathlib NormedSpace.exp); (v) without relaxation tr(F rho) is conserved EXACTLY, not only within the bound, "
+         "for every F commuting with the Hamiltonian - the energy, its powers, the eigenstate populations (rdm_constant_of_motion, "
+         "rdm_energy_conserved). Tied to the code by 1e-9 comparison of every stored state of "
          "ReducedDensityMatrixPropagator (orders 2/4/6, Nref 1/2/5 incl. sticky reuse of propagators, Lindblad tensor/operator form, "
          "Lorentzian pure dephasing) and StateVectorPropagator (complex Hermitian H) with the rational model, and by the oracle: trace, "
          "Hermiticity, positivity, distance to scipy expm of the GKSL generator within the bound, purity/energy, sv-vs-dm, RWA-vs-lab.",
@@ -179,8 +182,10 @@ CLAIMED["C13"] = dict(
          "axis (complete and upper-half with Hermitian extension), transform-then-inverse. For a primitive n-th root of unity in ANY field the model of "
          "get_inverse_Fourier_transform applied to the model of get_Fourier_transform gives the function back, for every length "
          "n >= 1 and every data, whenever dt*(dw/2pi)*n = 1 (iftComplete_ftComplete: exchange of sums, shift of a complete residue "
-         "system, geometric sum of a non-trivial root; the hypothesis is satisfiable over C for every n). Partial: the upper-half "
-         "index map of the full transform is checked numerically (its even/odd parts are proved in C09), not proved.",
+         "system, geometric sum of a non-trivial root; the hypothesis is satisfiable over C for every n). Upper-half axes: the "
+         "model of that branch (Hermitian extension yy, 2N-point transform, upper half of the complete inverse) is run against the "
+         "package sample by sample, and transform-then-inverse gives the function back for every N, every data and whatever fills "
+         "the lower half (iftUpper_ftUpper via ifftshift_fftshift and the complete-axis theorem at length 2N).",
     note="Lean kernel + standard axioms; numpy.fft contract (DFT with e^{-2 pi i/n}); hand model validated on generated inputs.",
     technique="Lean 4 field identities + Fin-rotation/ModEq index proof + correspondence and direct-sum oracle",
     ref="DESIGN.md §5 C13")
